@@ -27,7 +27,7 @@ ASSUMPTIONS = [
 ]
 
 KINDS = ["tanh", "cube", "lin", "bilin", "twoout", "sum", "einsum_mul", "math_a", "math_b", "concat", "fill2",
-         "filterconv", "tanh", "lin", "bilin", "sumlin", "sumlin", "sum3", "cplx"]
+         "filterconv", "tanh", "lin", "bilin", "sumlin", "sumlin", "sum3", "cplx", "dyad"]
 
 
 def budget(tier):
@@ -179,6 +179,35 @@ def mods():
         def _sensitivity(self, dy):
             return np.reshape(dy, self.shape)
 
+    class C02Diag(pym.Module):
+        """A = diag(x) as a sparse matrix; the matrix sensitivity arrives as a DyadCarrier (or an array)"""
+        def _response(self, x):
+            import scipy.sparse as sps
+            return sps.diags(np.asarray(x, dtype=float)).tocsc()
+
+        def _sensitivity(self, dA):
+            return np.asarray(dA.diagonal() if isinstance(dA, pym.DyadCarrier) else dA.diagonal(), dtype=float)
+
+    class C02MatSum(pym.Module):
+        """C = A + B for two matrices; the adjoint is the same for both and is returned as one and the same object"""
+        def _response(self, A, B):
+            return A + B
+
+        def _sensitivity(self, dC):
+            return dC, dC
+
+    class C02MatVec(pym.Module):
+        """y = A v for a fixed vector v; the adjoint with respect to the (sparse) matrix is the dyad dy v^T"""
+        def _prepare(self, v):
+            self.v = v
+
+        def _response(self, A):
+            return A @ self.v
+
+        def _sensitivity(self, dy):
+            return pym.DyadCarrier(np.array(dy, dtype=float), self.v.copy())
+
+    _MODS["diag"], _MODS["matsum"], _MODS["matvec"] = C02Diag, C02MatSum, C02MatVec
     _MODS["flat"] = C02Flat
     _MODS["sumlin"] = C02SumLin
     _MODS["sum3"] = C02Sum3Lin
@@ -378,6 +407,32 @@ def _check_case(case):
             g0.consumers += 1
             labels.append("shared_adjoint_object")
             labels.append("same_signal_twice")
+        elif kind == "dyad":
+            # matrix-valued intermediate signals whose sensitivities are DyadCarriers: A = diag(x0), B = diag(x1),
+            # y1 = A v1 (a consumer of A placed BEFORE the sum, so back-propagated after it), C = A + B (adjoint returned as
+            # one object for both inputs), y2 = C v2, z = Am (y1 + y2)
+            cand = [i for i, s_ in enumerate(sigs) if s_.val.size == n0 and not s_.twoD and s_ is not g0]
+            if slc0 is not None or not cand:
+                r1, v1, J1, g1 = take_abs(idx0, slc0)
+            else:
+                r1, v1, J1, g1 = take(cand[nd["in"][1] % len(cand)], None)
+            sA, sB, sC = pym.Signal(tag + "A"), pym.Signal(tag + "B"), pym.Signal(tag + "C")
+            sy1, sy2 = pym.Signal(tag + "y1"), pym.Signal(tag + "y2")
+            w1, w2 = rng.uniform(-1, 1, n0), rng.uniform(-1, 1, n0)
+            Am = rng.uniform(-1, 1, (m, n0))
+            order = nd["in"][1] % 3
+            chain = [M["diag"](r0, sA), M["diag"](r1, sB)]
+            mv1, ms, mv2 = M["matvec"](sA, sy1, w1), M["matsum"]([sA, sB], sC), M["matvec"](sC, sy2, w2)
+            chain += [mv1, ms, mv2] if order == 0 else ([ms, mv1, mv2] if order == 1 else [ms, mv2, mv1])
+            zval = Am @ (w1 * v0 + w2 * (v0 + v1))
+            zjac = Am @ (w1[:, None] * J0 + w2[:, None] * (J0 + J1))
+            chain.append(M["sumlin"]([sy1, sy2], new_sig(tag, zval, zjac), Am))
+            modules.extend(chain)
+            g0.consumers += 1
+            labels.append("dyadcarrier_sensitivities")
+            labels.append("shared_adjoint_object")
+            if g1 is g0:
+                labels.append("same_signal_twice")
         elif kind in ("bilin", "einsum_mul", "math_a", "math_b", "concat", "sumlin"):
             if kind in ("einsum_mul", "math_a", "math_b", "sumlin"):
                 # elementwise: second operand must have the same length; otherwise use the same operand twice
@@ -505,7 +560,10 @@ def _check_case(case):
             lastout = [m for m in items[:k] if not isinstance(m, pym.Network)]
             if lastout and lastout[-1].sig_out and lastout[-1].sig_out[0].state is not None:
                 so = lastout[-1].sig_out[0]
-                so.sensitivity = np.ones_like(so.state)
+                if hasattr(so.state, "tocsc"):      # a matrix-valued signal: seeded with a dyad
+                    so.sensitivity = pym.DyadCarrier(np.ones(so.state.shape[0]), np.ones(so.state.shape[1]))
+                else:
+                    so.sensitivity = np.ones_like(so.state)
             top.sensitivity()
             top.reset()
             top.append(*items[k:])
